@@ -4,7 +4,7 @@ x instruction offsets {0, 0x1000, 2^16-2, 2^31-3, 2^32-len-1, 2^32-1} served thr
 other opcode's base forms (must be 'seq').  Obs: breakflow() splitflow() dstflow() getnextflow() getdstflow().
 Oracle: spec/IA32Flow.tla (class table, next = offset+len, target = (offset+len+sext(disp)) mod 2^opsize on limbs),
 judged by spec/T_C17.tla."""
-import sys, json, random, collections, multiprocessing
+import os, sys, json, random, collections, multiprocessing
 from . import core, ia32lib, ia32space
 
 PFX = {0xF0, 0xF2, 0xF3, 0x26, 0x2E, 0x36, 0x3E, 0x64, 0x65, 0x66, 0x67}
@@ -146,11 +146,15 @@ def offsets(n):
 def run(tier, chk):
     rnd = random.Random(chk.seed)
     negative_control(chk)
-    g = ia32space.gen(1 if tier == 'quick' else 2, False, None if tier == 'quick' else sorted(CT1 | {0x0F}), chk)
-    ctl = [bytes.fromhex(h) for h in g['done'] if is_control(bytes.fromhex(h))]
-    if tier != 'quick':
+    if tier == 'quick':
+        g = ia32space.gen(1, False, None, chk)
+        ctl = [bytes.fromhex(h) for h in g['done'] if is_control(bytes.fromhex(h))]
+    else:
+        g1 = ia32space.gen(2, False, sorted(CT1), chk)
+        g2 = ia32space.gen(2, False, [0x0F], chk, op2=sorted(CT2))
+        ctl = [bytes.fromhex(h) for h in g1['done'] + g2['done'] if is_control(bytes.fromhex(h))]
         rnd.shuffle(ctl)
-        ctl = ctl[:250000]
+        ctl = ctl[:300000]
     items = [(b, o) for b in ctl for o in offsets(len(b))]
     obs, tot = judge(chk, 'control-transfer forms x 6 offsets', items, rnd)
     chk.cov['distinct_nontrivial'] = tot['cmp']
@@ -164,10 +168,8 @@ def run(tier, chk):
 
 
 def negative_control(chk):
-    good = observe([(bytes.fromhex('7405'), 0x1000), (bytes.fromhex('e800000080'), 0), (bytes.fromhex('01d8'), 0), (bytes.fromhex('c3'), 7)])
-    recs = [dict({k: o[k] for k in FIELDS}, id=i) for i, o in enumerate(good)]
-    if not all(r['ok'] for r in recs):
-        raise core.MachineryError('C17 negative control: control set not decoded')
+    # frozen control records (recorded once on the unchanged tree): independent of the tree under test
+    recs = json.load(open(os.path.join(core.VERIF, 'vf', 'ia32_controls.json')))['C17']
     bad = []
     def mut(i, f, clause):
         r = json.loads(json.dumps(recs[i]))
